@@ -6,5 +6,8 @@ V2 == {1, 2}
 RowJson(r) == IF r = NULLROW THEN [null |-> TRUE, elems |-> <<>>] ELSE [null |-> FALSE, elems |-> r]
 Export == pc = "done" => PrintT(ToJson([rows |-> [i \in DOMAIN rows |-> RowJson(rows[i])], lopt |-> lopt, eopt |-> eopt,
                                          cuts |-> SetToSeq(cuts), stream |-> Stream,
-                                         model_ok |-> (~misplaced /\ assign = rows)]))
+                                         model_ok |-> (~misplaced /\ assign = rows), misplaced |-> misplaced,
+                                         mech |-> [i \in DOMAIN assign |-> IF assign[i] = NULLROW \/ assign[i] = <<-7>>
+                                                                            THEN [null |-> TRUE, elems |-> <<>>]
+                                                                            ELSE [null |-> FALSE, elems |-> assign[i]]]]))
 =============================================================================
